@@ -181,3 +181,89 @@ package storagesc
 //@   ensures[failure-changes-nothing] result != nil ==> $ntr == old($ntr) && (old(poolID in sp.StakePool.Pools) ==> sp.StakePool.Pools[poolID].Balance == old(sp.StakePool.Pools[poolID].Balance) && sp.StakePool.Pools[poolID].Status == old(sp.StakePool.Pools[poolID].Status))
 //@   ensures[no-pool-entry-touched] forall k string :: ((k in sp.StakePool.Pools) == old(k in sp.StakePool.Pools)) && (old(k in sp.StakePool.Pools) ==> sp.StakePool.Pools[k] == old(sp.StakePool.Pools[k]))
 //@   at-return assert[stake-still-covers-the-offers] result == nil ==> staked >= requiredBalance && requiredBalance == old(sp.TotalOffers) + old(sp.StakePool.Pools[poolID].Balance)
+
+// ---------------------------------------------------------------- read markers (C15)
+//   rm_signed(pk, alloc, blobber, client, owner, counter, timestamp, sig)   sig is a valid signature under
+//        public key pk of the marker hash data built from the other seven values (what VerifySignature
+//        establishes; a fact about the marker's CONTENT)
+//   key_id(pk)        the client id a public key stands for (hash of the deserialized key)
+//   f64_gb(n)         sizeInGB(n): n bytes in GB (float; uninterpreted like all floats)
+//@ uf rm_signed (Str Str Str Str Str Int Int Str) Bool
+//@ uf key_id (Str) Str
+//@ uf f64_gb (Int) F64
+//@ func (*ReadMarker).VerifySignature
+//@   trusted
+//@   ensures result == rm_signed(clientPublicKey, rm.AllocationID, rm.BlobberID, rm.ClientID, rm.OwnerID, rm.ReadCounter, rm.Timestamp, rm.Signature)
+//@   modifies nothing
+//@ func (*ReadMarker).VerifyClientID
+//@   trusted
+//@   ensures result == nil ==> rm.ClientID == key_id(rm.ClientPublicKey)
+//@   modifies nothing
+//@ func sizeInGB
+//@   trusted
+//@   ensures result == f64_gb(size)
+//@   modifies nothing
+
+// A marker verifies only with a positive counter that is not behind the previous marker of the same
+// client and blobber, and with the client's signature over its own fields under the key it names.
+//@ func (*ReadMarker).Verify
+//@   prop C15
+//@   requires rm != nil
+//@   ensures[counter-positive-and-not-behind] result == nil ==> rm.ReadCounter > 0 && (prevRM != nil ==> rm.ReadCounter >= prevRM.ReadCounter && rm.ClientID == prevRM.ClientID && rm.BlobberID == prevRM.BlobberID)
+//@   ensures[signed-with-the-named-key] result == nil ==> rm_signed(rm.ClientPublicKey, rm.AllocationID, rm.BlobberID, rm.ClientID, rm.OwnerID, rm.ReadCounter, rm.Timestamp, rm.Signature)
+//@   modifies nothing
+
+// The read pool is debited by exactly the value handed on to the blobber's stake pool, never by more
+// than it holds.
+//@ func (*readPool).moveToBlobber
+//@   prop C15
+//@   requires rp != nil && sp != nil && sp.StakePool != nil && balances != nil && poolsMapOK(sp.StakePool) && sp.StakePool.Reward <= MAXSUPPLY && value <= MAXSUPPLY
+//@   at-call DistributeRewards assert[hands-on-exactly-the-debit] $arg1 == value && rp.Balance == old(rp.Balance) - value && value <= old(rp.Balance)
+//@   ensures[debits-exactly-the-value] err == nil ==> rp.Balance == old(rp.Balance) - value
+//@   ensures[never-more-than-the-pool-holds] value > old(rp.Balance) ==> err != nil && rp.Balance == old(rp.Balance)
+
+// Redeeming a marker: the read pool that pays is the one of the marker's client; the marker was verified
+// (signature under the key the client id is the hash of, counter not behind the last redeemed marker of this
+// blobber, client and allocation); the charge is the blobber's read price times the size of the reads
+// made since that last marker; the marker saved as the new "last" is the one just verified.
+//@ func (*StorageSmartContract).getAllocation
+//@   trusted
+//@   ensures result1 == nil ==> result0 != nil && fresh(result0)
+//@   modifies nothing
+//@ func (*StorageAllocation).mustBase
+//@   trusted
+//@   ensures result != nil && fresh(result)
+//@   modifies nothing
+//@ func (*StorageSmartContract).getBlobber
+//@   trusted
+//@   ensures result1 == nil ==> result0 != nil && fresh(result0)
+//@   modifies nothing
+//@ func (*StorageSmartContract).getReadPool
+//@   trusted
+//@   ensures result1 == nil ==> rp == nil || fresh(rp)
+//@   modifies nothing
+//@ func (*StorageSmartContract).getStakePool
+//@   trusted
+//@   ensures result1 == nil ==> result0 != nil && fresh(result0) && result0.StakePool != nil
+//@   modifies nothing
+//@ func (*ReadConnection).Decode
+//@   trusted
+//@   modifies rc.$all
+//@ func (*readPool).save
+//@   trusted
+//@   modifies $saved, $nsaved, $deleted
+// Nothing in the package writes the identifying fields or the counter of an existing read marker except
+// the generated decoders (on the object they are called on): the marker that was verified is, field for
+// field, the marker that is saved as the new "last redeemed" one - counters only move forward.
+//@ writers C15 ReadMarker.ReadCounter, ReadMarker.ClientID, ReadMarker.BlobberID, ReadMarker.AllocationID, ReadMarker.ClientPublicKey, ReadMarker.Signature : (*ReadMarker).UnmarshalMsg, (*ReadMarker).DecodeMsg, (*ReadConnection).UnmarshalMsg, (*ReadConnection).DecodeMsg
+//@ func (*StorageSmartContract).commitBlobberRead
+//@   prop C15
+//@   requires sc != nil && t != nil && balances != nil
+//@   opaque moveToBlobber, mustUpdateBase, Save, buildDbUpdates, emitAddOrOverwriteReadMarker, GetCurrentRewardRound, AddCoin, EmitEvent
+//@   at-call InsertTrieNode assert[saves-the-verified-marker] typeis($arg2, "*0chain.net/smartcontract/storagesc.ReadConnection") ==> obj($arg2) == obj(commitRead)
+//@   at-call getReadPool assert[the-clients-read-pool] $arg1 == commitRead.ReadMarker.ClientID
+//@   at-call moveToBlobber assert[pays-from-that-pool-to-the-markers-blobber] $arg0 == rp && $arg2 == commitRead.ReadMarker.BlobberID && details.BlobberID == commitRead.ReadMarker.BlobberID && $arg3 == sp
+//@   at-call moveToBlobber assert[marker-signed-by-the-client] commitRead.ReadMarker.ClientID == key_id(commitRead.ReadMarker.ClientPublicKey) && rm_signed(commitRead.ReadMarker.ClientPublicKey, commitRead.ReadMarker.AllocationID, commitRead.ReadMarker.BlobberID, commitRead.ReadMarker.ClientID, commitRead.ReadMarker.OwnerID, commitRead.ReadMarker.ReadCounter, commitRead.ReadMarker.Timestamp, commitRead.ReadMarker.Signature)
+//@   at-call moveToBlobber assert[counter-not-behind-the-last-redeemed] commitRead.ReadMarker.ReadCounter >= lastKnownCtr && commitRead.ReadMarker.ReadCounter > 0
+// (for fewer than 2^47 new reads: beyond that the byte count wraps in int64 - 9 exabytes read through one marker)
+//@   at-call moveToBlobber assert[charges-price-times-new-reads] commitRead.ReadMarker.ReadCounter - lastKnownCtr < 140737488355328 ==> $arg4 == trunc(float64(details.Terms.ReadPrice) * f64_gb((commitRead.ReadMarker.ReadCounter - lastKnownCtr) * 65536))
